@@ -381,6 +381,8 @@ pub fn run_scenario(sc: &Value) -> Vec<Value> {
                     _ => false,
                 };
                 m.insert("eq".into(), json!(eq));
+                // (when one of the two runs did not complete - a program that is not valid after all - there is nothing to compare)
+                m.insert("both".into(), json!(archives.get(a).is_some() && archives.get(b).is_some()));
                 m.insert("have".into(), json!(archives.len()));
                 ex.ev(m);
             }
